@@ -216,10 +216,11 @@ theorem c07_gen_trickle_repeat_loop (i : Nat) (done : Bool) (hi : i < 2 ^ 63) :
 /-- The block the model emits for an internal node decodes, through the C11 and C18 decoders, to exactly the
 node's links (one per child, in order, unnamed, carrying the child's CID and cumulative size) and to the UnixFS
 message {File, filesize, blocksizes} of the tree — for every tree and every CID assignment whose links pass
-`checkLink` (non-empty CID, Tsize < 2^63) and whose sizes fit their Go types. -/
+`checkLink` (non-empty CID, Tsize < 2^63) and C11's CID syntax check `cidWf`, and whose sizes fit their Go types. -/
 theorem c07_block_roundtrip (c : BlockCfg) (fs : Nat) (cs : List (FNode × Nat)) (cids : List (List UInt8))
     (hfs : fs < 2 ^ 64) (hbs : ∀ x ∈ cs, x.2 < 2 ^ 64)
     (hl : ∀ l ∈ (blocksOfL c cs cids.tail).2.1, C11.checkLink l = true)
+    (hcid : ∀ l ∈ (blocksOfL c cs cids.tail).2.1, C11.cidWf l.cid)
     (hd : (C18.encode { type := 2, filesize := some fs, blocksizes := cs.map (·.2) }).length < 2 ^ 64)
     (hb : ((blocksOf c {} (.node fs cs) cids).blocks.headD []).length < 2 ^ 64) :
     ∃ data, C11.decodePB ((blocksOf c {} (.node fs cs) cids).blocks.headD []) =
@@ -230,7 +231,7 @@ theorem c07_block_roundtrip (c : BlockCfg) (fs : Nat) (cs : List (FNode × Nat))
   rw [blocksOf_node, hw] at hb ⊢
   simp only [List.headD_cons] at hb ⊢
   refine ⟨C18.encode { type := 2, filesize := some fs, blocksizes := cs.map (·.2) }, ?_, ?_⟩
-  · rw [C11.c11_roundtrip _ _ hl hb, sortLinks_unnamed _ (blocksOfL_unnamed c cs cids.tail)]
+  · rw [C11.c11_roundtrip _ _ hl hcid hb, sortLinks_unnamed _ (blocksOfL_unnamed c cs cids.tail)]
   · apply C18.c18_codec_rt _ ?_ hd
     exact { type := by simp, filesize := by intro v h; simp at h; omega,
             blocks := by
@@ -239,7 +240,8 @@ theorem c07_block_roundtrip (c : BlockCfg) (fs : Nat) (cs : List (FNode × Nat))
               obtain ⟨x, hx, rfl⟩ := hv
               exact hbs x hx,
             hashType := by intro v h; simp at h, fanout := by intro v h; simp at h,
-            secs := by intro m h; simp at h, nanos := by intro m v h; simp at h }
+            secs := by intro m h; simp at h, nanos := by intro m v h; simp at h,
+            unk := ⟨[], by simp [Proto.decodeMsgRaw, Proto.decodeMsgRawAux], by simp⟩ }
 
 /-! ## Non-vacuity: concrete deep trees -/
 
